@@ -139,10 +139,10 @@ class RString:
 
 
 class Closure:
-    __slots__ = ('name', 'caps')
+    __slots__ = ('name', 'caps', 'env')
 
-    def __init__(self, name, caps):
-        self.name, self.caps = name, caps
+    def __init__(self, name, caps, env=None):
+        self.name, self.caps, self.env = name, caps, env
 
     def __repr__(self):
         return f'{self.name}'
